@@ -22,8 +22,14 @@ Applies(c, op, decl) == CASE c \in {"hdr", "basic", "prov", "key"} -> TRUE
 VARIABLES cfg, req
 vars == <<cfg, req>>
 NoReq == [ph |-> "", op |-> 0, src |-> [c \in Carriers |-> "absent"]]
-Init == /\ cfg \in [carriers : SUBSET Carriers, declared : Declared, workers : {1, 2}, scope : {"schema", "global"}]
+(* how the auth provider is registered: a provider class (cached for the refresh interval), the same with a cache key per
+   operation (`cache_by_key`), or a `requests` auth object (`set_from_requests`, sets Authorization itself) *)
+ProviderKinds == {"class", "keyed", "requests"}
+Init == /\ cfg \in [carriers : SUBSET Carriers, declared : Declared, workers : {1, 2}, scope : {"schema", "global"}, kind : ProviderKinds]
         /\ (cfg.scope = "global" => "prov" \in cfg.carriers)
+        /\ (cfg.kind # "class" => "prov" \in cfg.carriers)
+        \* a requests auth object and --auth both own the Authorization header: two user layers, no order stated, not in the family
+        /\ (cfg.kind = "requests" => "basic" \notin cfg.carriers)
         \* explicit --auth deliberately unregisters a GLOBAL auth provider (Engine.execute); that choice between two user
         \* layers is outside the property (no order among user layers), so the combination is not part of the family
         /\ ~("basic" \in cfg.carriers /\ "prov" \in cfg.carriers /\ cfg.scope = "global")
@@ -43,5 +49,5 @@ Next == Assemble
 Spec == Init /\ [][Next]_vars
 UserWins == req.op # 0 => \A c \in cfg.carriers : Applies(c, req.op, cfg.declared) => req.src[c] = "user"
 Export == IF req.op = 0 THEN PrintT(<<"CASE", ToJson([carriers |-> cfg.carriers, declared |-> cfg.declared,
-                                                        workers |-> cfg.workers, provider_scope |-> cfg.scope])>>) ELSE TRUE
+                                                        workers |-> cfg.workers, provider_scope |-> cfg.scope, provider_kind |-> cfg.kind])>>) ELSE TRUE
 =============================================================================
